@@ -90,6 +90,19 @@ SCENARIOS = [
      'try { Fiber.new(3); } catch e { print(type(e) == TypeError); }\ntry { Fiber.new(); } catch e { print(type(e) == TypeError); }\n'
      'try { Fiber.new(|a, b| a); } catch e { print(type(e) == ValueError); }',
      ["true", "true", "true"], "ok"),
+    ("exception-in-flight-survives-a-fiber-started-in-finally",
+     'fn cleanup(what) { var f = Fiber.new(|w| { print("cleanup fiber runs for " + w); return "cleaned"; }); return f.call(what); }\n'
+     'fn risky() { try { throw "boom-1"; } finally { print("finally: " + cleanup("risky")); } print("BUG: exception lost"); return "returned normally"; }\n'
+     'try { print(risky()); } catch e { print("caught " + e); }\n'
+     'var worker = Fiber.new(|| { var local = "wl"; try { try { Fiber.yield("suspended in try"); throw "boom-2"; } finally { print("worker finally " + local + ": " + cleanup("worker")); } print("BUG"); } catch e { print("worker caught " + e + " " + local); return "handled"; } return "not handled"; });\n'
+     'print(worker.call()); print(worker.call()); print(worker.has_finished());',
+     ["cleanup fiber runs for risky", "finally: cleaned", "caught boom-1", "suspended in try", "cleanup fiber runs for worker", "worker finally wl: cleaned",
+      "worker caught boom-2 wl", "handled", "true"], "ok"),
+    ("exception-in-flight-survives-resuming-another-fiber-in-finally",
+     'var helper = Fiber.new(|| { Fiber.yield("h1"); return "h2"; }); helper.call();\n'
+     'fn risky() { try { throw "boom"; } finally { print("finally resumes: " + helper.call()); } return "returned normally"; }\n'
+     'try { print(risky()); } catch e { print("caught " + e); }',
+     ["finally resumes: h2", "caught boom"], "ok"),
     ("return-value-vs-yield-value",
      'var f = Fiber.new(|| { Fiber.yield([1]); return (2,); });\nprint(f.call()); print(f.call()); print(f.has_finished());',
      ["[1]", "(2,)", "true"], "ok"),
